@@ -78,7 +78,7 @@ type state struct {
 	tokens  map[string]*T // abstract state tokens by interface/type key
 	ghost   map[string]*T
 	pc      []*T
-	low *T // lowest reference allocated so far (fresh references are low-1, low-2, ...); initially 0
+	low     *T       // lowest reference allocated so far (fresh references are low-1, low-2, ...); initially 0
 	assumed []string // names of axioms / external contracts assumed on this path
 }
 
@@ -204,8 +204,12 @@ func (c *ctx) arrOf(st *state, t types.Type) *T {
 	return h
 }
 
-func (c *ctx) setHeap(st *state, t types.Type, h *T) { st.heaps[heapKey(t)] = c.name(st, "H_"+heapKey(t), h) }
-func (c *ctx) setArr(st *state, t types.Type, h *T)  { st.arrs[heapKey(t)] = c.name(st, "A_"+heapKey(t), h) }
+func (c *ctx) setHeap(st *state, t types.Type, h *T) {
+	st.heaps[heapKey(t)] = c.name(st, "H_"+heapKey(t), h)
+}
+func (c *ctx) setArr(st *state, t types.Type, h *T) {
+	st.arrs[heapKey(t)] = c.name(st, "A_"+heapKey(t), h)
+}
 
 // name introduces a named constant for a big term to keep queries linear in size.
 func (c *ctx) name(st *state, prefix string, t *T) *T {
